@@ -1,20 +1,39 @@
 (* C14 -- the front end is total: malformed text gives an error, not a panic or hang.
    Statements only; models in Front/Lex.v, Front/Parse.v, Front/Resolve.v, Extract/OpsParse.v (to_rust's TagResolver).
 
-   PARTIAL.  Proved: the tokenizer never returns an error value and panics only with the explicit panic! of the
-   unclosed comment block, or (overflow checks on) with the i32 overflow of the comment nesting counter after
-   2^31 - 1 unclosed "/*"  (C14_lex_total_partial; the characterisation "the text ends inside a block comment" of
-   DESIGN.md is decided by the check's oracle from the text, not proved); C14_parse_total_partial: tags, SIZE,
-   object identifiers, IMPORTS and ENUMERATED never panic and never run out of fuel, on any token list.
-   NOT proved: fuel sufficiency of the mutually recursive type grammar, of named-number lists, literals and WITH
-   COMPONENTS, and of the module loop (C14_parse_total of DESIGN.md); C14_error_carries_token; the parser, resolver and to_rust
-   outcome classes are tied to the crate differentially on every generated input (op 3303), where fuel
-   exhaustion would appear as the answer -3.
+   Proved (Front/ParseProofs.v, Front/ParseTotalProofs.v):
+     * C14_lex_total_partial: the tokenizer never returns an error value and panics only with the explicit panic!
+       of the unclosed comment block, or (overflow checks on) with the i32 overflow of the comment nesting counter
+       after 2^31 - 1 unclosed "/*" (the characterisation "the text ends inside a block comment" of DESIGN.md is
+       decided by the check's oracle from the text, not proved);
+     * C14_parse_total: the WHOLE parser model (Model::try_from: module header, object identifiers, IMPORTS, the
+       module loop, definitions, value references, the mutually recursive type grammar -- components / CHOICE /
+       SEQUENCE OF / SET OF / nesting --, tags, SIZE, INTEGER ranges, named numbers / named bits, ENUMERATED,
+       literals, WITH COMPONENTS skipping) returns a model or an error value on EVERY token list, never a panic
+       and never fuel exhaustion, as soon as the fuel of the type grammar is at least 2 * length tokens + 4
+       (parse_fuel = 4 * length + 16 of the executable model is enough: C14_parse_total_default_fuel).
+       Fuel sufficiency is the termination argument of the Rust parser: every loop iteration and every call chain
+       back into read_role_given_text consumes at least one token (one invariant, `stp`, proved for each function:
+       a value leaves a strictly / weakly shorter suffix of the input).  No loop without progress was found.
+       The bound length tokens + 1 is NOT sufficient (C14_fuel_length_plus_1_insufficient: the chain
+       role -> components -> loop -> field -> role spends four units of fuel on three tokens).
+     * C14_literal_panics_unreachable: the two slice-range panics of LiteralValue::try_from_asn_str exist for a
+       direct call (on the strings consisting of a lone quotation mark, or an apostrophe followed by h/H/b/B) but
+       read_literal never passes such a string: what it collects starts and ends with the delimiter (length >= 2,
+       resp. >= 3 with the H/B suffix), or is true/false/an integer spelling.
+     * C14_error_carries_token: an error value of the parser without a token is UnexpectedEndOfStream (or
+       MissingModuleName, when the first token is not a text); an error value with a token carries a token of the
+       input -- with ONE exception (finding): InvalidLiteral carries a text token that read_literal synthesises
+       from the location of the literal's first token and the text it collected (for 'xy'H that token is not in
+       the input; its line and column are those of an input token).
+     * C14_parse_total_partial (older, kept): the loop-free productions and token loops are `safe` one by one.
+   NOT proved here: totality of the resolver and of to_rust (both are refuted below); their outcome classes are
+   tied to the crate differentially on every generated input (op 3303).
    Refuted: conversion to the Rust model does not return on a cycle of untagged type references / CHOICE
    alternatives (a legal recursive CHOICE suffices), the resolver does not return on cyclic IMPORTS of an
    undefined name: both are stack overflows that abort the process (`3 32`), not error values. *)
 From Coq Require Import String.
-From A1 Require Import Front.Lex Front.Parse Front.ParseProofs Front.Resolve Extract.OpsParse.
+From A1 Require Import Front.Lex Front.Parse Front.Print Front.ParseProofs Front.ParseTotalProofs Front.Resolve Extract.OpsParse.
 Local Open Scope Z_scope.
 
 Theorem C14_lex_total_partial : forall m s,
@@ -51,6 +70,88 @@ Proof.
   - destruct H as [_ H]. exact (H eq_refl).
 Qed.
 
+(* The whole parser, any token list: a model or an error value.  The fuel is the budget of the type grammar
+   (handed down, one unit per call / loop iteration); the token loops carry their own fuel S (length tokens). *)
+Theorem C14_parse_total : forall (toks : list token) (fuel : nat),
+  (2 * length toks + 4 <= fuel)%nat ->
+  (forall p, parse_module fuel toks <> PPanic p) /\ parse_module fuel toks <> POutOfFuel.
+Proof.
+  intros toks fuel Hf. apply C14_safe_means. apply parse_module_total. exact Hf.
+Qed.
+
+Theorem C14_parse_total_default_fuel : forall toks : list token,
+  (forall p, parse toks <> PPanic p) /\ parse toks <> POutOfFuel.
+Proof. intros toks. apply C14_safe_means. apply parse_total. Qed.
+
+Theorem C14_error_carries_token : forall (toks : list token) (fuel : nat) (k : N) (o : option token),
+  (2 * length toks + 4 <= fuel)%nat ->
+  parse_module fuel toks = PErr k o ->
+  match o with
+  | None => k = E_END_OF_STREAM \/ k = E_MISSING_MODULE_NAME
+  | Some t =>
+      In t toks \/
+      (k = E_INVALID_LITERAL /\
+       exists p, In p toks /\ tok_line t = tok_line p /\ tok_column t = tok_column p)
+  end.
+Proof. exact parse_module_error_token. Qed.
+
+(* tokenizer and parser together, for every input string: a model, an error value, or one of the two tokenizer
+   panics (the sanctioned unclosed-comment panic!, or the nesting-counter overflow in a build with overflow checks) *)
+Theorem C14_lex_parse_total : forall (m : mode) (s : list N),
+  (exists ts, tokenize m s = Ok ts /\ (forall p, parse ts <> PPanic p) /\ parse ts <> POutOfFuel) \/
+  (exists p, tokenize m s = Panic p /\ (p = P_OTHER \/ (p = P_ARITH /\ overflow_checks m = true))).
+Proof.
+  intros m s. destruct (tokenize_outcomes m s) as [HP HE].
+  destruct (tokenize m s) as [ts | e | p] eqn:E.
+  - left. exists ts. split; [reflexivity | apply C14_parse_total_default_fuel].
+  - exfalso. exact (HE e eq_refl).
+  - right. exists p. split; [reflexivity | exact (HP p eq_refl)].
+Qed.
+
+(* the slice panics of LiteralValue::try_from_asn_str are real for a direct call, and unreachable from the parser *)
+Theorem C14_literal_panics_unreachable :
+  literal_of_asn_str [34%N] = PPanic P_SLICE_RANGE /\
+  literal_of_asn_str [39%N; 72%N] = PPanic P_SLICE_RANGE /\
+  literal_of_asn_str [39%N; 98%N] = PPanic P_SLICE_RANGE /\
+  (forall s, lit_shape s -> exists o, literal_of_asn_str s = POk o) /\
+  (forall ts, safe (read_literal ts)).
+Proof.
+  split; [vm_compute; reflexivity|]. split; [vm_compute; reflexivity|]. split; [vm_compute; reflexivity|].
+  split; [exact literal_total|].
+  intros ts. eapply outcome_safe. apply (stp_read_literal ts ts). apply sub_refl.
+Qed.
+
+(* sixteen unclosed levels  A ::= SEQUENCE { a SEQUENCE { a SEQUENCE { ... : 59 tokens, the recursion is 65 calls
+   deep before the end of the stream is seen: with fuel = number of tokens + 1 the model runs out of fuel, with
+   2n + 4 it reports UnexpectedEndOfStream like the crate *)
+Fixpoint nest (n : nat) : list token :=
+  match n with
+  | O => []
+  | S k => P C_LBRACE :: T (s2n "a") :: T (s2n "SEQUENCE") :: nest k
+  end.
+
+Definition nested16 : list token :=
+  [T (s2n "M"); T (s2n "DEFINITIONS"); P C_COLON; P C_COLON; P C_EQ; T (s2n "BEGIN");
+   T (s2n "A"); P C_COLON; P C_COLON; P C_EQ; T (s2n "SEQUENCE")] ++ nest 16.
+
+Example C14_fuel_length_plus_1_insufficient :
+  parse_module (length nested16 + 1) nested16 = POutOfFuel /\
+  parse_module (2 * length nested16 + 4) nested16 = PErr E_END_OF_STREAM None.
+Proof. split; vm_compute; reflexivity. Qed.
+
+(* the InvalidLiteral token is synthesised: 'xy'H *)
+Example C14_invalid_literal_token_is_synthesised :
+  let ts := [T (s2n "M"); T (s2n "DEFINITIONS"); P C_COLON; P C_COLON; P C_EQ; T (s2n "BEGIN");
+             T (s2n "v"); T (s2n "INTEGER"); P C_COLON; P C_COLON; P C_EQ;
+             Separator 1 40 C_APOS; Text 1 41 (s2n "xy"); Separator 1 43 C_APOS; Text 1 44 (s2n "H");
+             T (s2n "END")] in
+  parse ts = PErr E_INVALID_LITERAL (Some (Text 1 40 (s2n "'xy'H"))) /\
+  ~ In (Text 1 40 (s2n "'xy'H")) ts.
+Proof.
+  split; [vm_compute; reflexivity|].
+  cbn [In]. intros H. repeat (destruct H as [H | H]; [discriminate H|]). exact H.
+Qed.
+
 Definition txt (s : string) : list Z := map Z.of_N (s2n s).
 
 (* a legal recursive CHOICE: tokenizer, parser and resolver succeed, Model::to_rust does not return *)
@@ -77,5 +178,12 @@ Proof. split; vm_compute; reflexivity. Qed.
 Print Assumptions C14_lex_total_partial.
 Print Assumptions C14_parse_total_partial.
 Print Assumptions C14_safe_means.
+Print Assumptions C14_parse_total.
+Print Assumptions C14_parse_total_default_fuel.
+Print Assumptions C14_error_carries_token.
+Print Assumptions C14_lex_parse_total.
+Print Assumptions C14_literal_panics_unreachable.
+Print Assumptions C14_fuel_length_plus_1_insufficient.
+Print Assumptions C14_invalid_literal_token_is_synthesised.
 Print Assumptions C14_refuted_to_rust_unbounded_recursion_on_recursive_untagged_type.
 Print Assumptions C14_refuted_resolver_unbounded_recursion_on_cyclic_import.
